@@ -29,6 +29,7 @@ package grandpa
 import (
 	stded "crypto/ed25519"
 	"fmt"
+	"sort"
 	"strings"
 	"testing"
 
@@ -74,6 +75,9 @@ type c21Result struct {
 	ghostIsHead bool
 	invalidSeen bool
 	equivSeen   bool
+	pvEquiv     []int // authorities that equivocated in the prevote stage of this round
+	pcEquiv     []int // ... in the precommit stage
+	finalised   int   // block finalised by attemptToFinalize, -1 none
 }
 
 func c21Describe(c *c21Case, tree *vTree) string {
@@ -125,10 +129,20 @@ func (w *c21Weights) weight(b int) int {
 	return t
 }
 
-// c21Eval runs the case and evaluates the oracle.
+// c21Eval runs a one-round case on a fresh service and evaluates the oracle.
 func c21Eval(c *c21Case) (*c21Result, *vTree, error) {
+	env, tree, err := c21Setup(c)
+	if err != nil {
+		return nil, tree, err
+	}
+	res, err := c21RunRound(env, tree, c)
+	return res, tree, err
+}
+
+// c21Setup builds the service (authority 0 of n) over a fresh block state
+// whose finalised head is c.head, finalised in round c.headRound.
+func c21Setup(c *c21Case) (*vEnv, *vTree, error) {
 	tree := newVTree(c.parent)
-	res := &c21Result{}
 	bs := newVBlockState(tree, c.head, c.headRound, c.setID, c.best)
 	keys := make([]int, c.n)
 	for i := range keys {
@@ -138,20 +152,34 @@ func c21Eval(c *c21Case) (*c21Result, *vTree, error) {
 	if err != nil {
 		return nil, tree, fmt.Errorf("NewService: %w", err)
 	}
+	return env, tree, nil
+}
+
+// c21RunRound takes the service through one round (initiateRound first, as
+// finalisationHandler.run does) and evaluates the oracle over the votes of
+// this round only. c.head / c.headRound must be the block state's current
+// finalised head and highest finalised round.
+func c21RunRound(env *vEnv, tree *vTree, c *c21Case) (*c21Result, error) {
+	res := &c21Result{finalised: -1}
+	bs, s := env.bs, env.svc
+	bs.mu.Lock()
+	bs.best = c.best
+	bs.mu.Unlock()
+	env.gs.mu.Lock()
 	env.gs.pendingAt, env.gs.pendingEffective = c.pendingAt, c.pendingEff
-	s := env.svc
+	env.gs.mu.Unlock()
 	if err := s.initiateRound(); err != nil {
-		return nil, tree, fmt.Errorf("initiateRound: %w", err)
+		return nil, fmt.Errorf("initiateRound: %w", err)
 	}
 	r := c.headRound + 1
 	if s.state.round != r || s.state.setID != c.setID || s.head.Hash() != tree.hashes[c.head] {
-		return nil, tree, fmt.Errorf("harness: round %d set %d head %s after initiateRound, expected %d %d %s",
+		return nil, fmt.Errorf("harness: round %d set %d head %s after initiateRound, expected %d %d %s",
 			s.state.round, s.state.setID, s.head.Hash(), r, c.setID, tree.hashes[c.head])
 	}
 	label := func(l string) { res.labels = append(res.labels, l) }
-	fail := func(f string, a ...any) (*c21Result, *vTree, error) {
+	fail := func(f string, a ...any) (*c21Result, error) {
 		res.violation = fmt.Sprintf(f, a...)
-		return res, tree, nil
+		return res, nil
 	}
 
 	pv := &c21Weights{tree: tree, votes: map[int][]int{}}
@@ -161,7 +189,7 @@ func c21Eval(c *c21Case) (*c21Result, *vTree, error) {
 		v := tree.vote(c.ownPrevote)
 		sv, _, err := s.createSignedVoteAndVoteMessage(&v, prevote)
 		if err != nil {
-			return nil, tree, fmt.Errorf("own prevote: %w", err)
+			return nil, fmt.Errorf("own prevote: %w", err)
 		}
 		s.prevotes.Store(s.publicKeyBytes(), sv)
 		pv.add(0, c.ownPrevote)
@@ -201,12 +229,33 @@ func c21Eval(c *c21Case) (*c21Result, *vTree, error) {
 			}
 			continue
 		}
-		if m.stage == prevote {
-			pv.add(m.key, blk)
-		} else {
-			pc.add(m.key, blk)
+		w := pv
+		if m.stage == precommit {
+			w = pc
+		}
+		if len(w.votes[m.key]) == 0 {
+			// first valid vote of this authority in this stage of this round: nothing
+			// of an earlier round may stand in its way
+			want := fmt.Sprintf("%s#%d/eq0", m.vote.Hash.Short(), m.vote.Number)
+			if err != nil || after != want {
+				return fail("message %d (%s): first valid %s of authority %d in round %d was not accepted and recorded: recorded %s -> %s, err: %v",
+					i, m.kind, m.stage, m.key, r, before, after, err)
+			}
+		}
+		w.add(m.key, blk)
+	}
+	for k, bl := range pv.votes {
+		if len(bl) >= 2 {
+			res.pvEquiv = append(res.pvEquiv, k)
 		}
 	}
+	for k, bl := range pc.votes {
+		if len(bl) >= 2 {
+			res.pcEquiv = append(res.pcEquiv, k)
+		}
+	}
+	sort.Ints(res.pvEquiv)
+	sort.Ints(res.pcEquiv)
 	if pv.equivocators()+pc.equivocators() > 0 {
 		res.equivSeen = true
 		label("equivocator")
@@ -294,15 +343,16 @@ func c21Eval(c *c21Case) (*c21Result, *vTree, error) {
 		if blk, ok := tree.index[vote.Hash]; ok {
 			sv, _, err := s.createSignedVoteAndVoteMessage(vote, precommit)
 			if err != nil {
-				return nil, tree, fmt.Errorf("own precommit: %w", err)
+				return nil, fmt.Errorf("own precommit: %w", err)
 			}
 			s.precommits.Store(s.publicKeyBytes(), sv)
 			pc.add(0, blk)
 		}
 	}
 
+	callsBefore := len(bs.finalCalls())
 	fin, ferr := s.attemptToFinalize()
-	calls := bs.finalCalls()
+	calls := bs.finalCalls()[callsBefore:]
 	finalisable := false
 	for b := 0; b < tree.size(); b++ {
 		if 3*pc.weight(b) > 2*n && tree.isAncestorOrEqual(c.head, b) && b != c.head {
@@ -346,8 +396,9 @@ func c21Eval(c *c21Case) (*c21Result, *vTree, error) {
 			return fail("block state finalised b%d but attemptToFinalize returned (%v, %v)", x, fin, ferr)
 		}
 		label("finalised")
+		res.finalised = x
 	}
-	return res, tree, nil
+	return res, nil
 }
 
 func c21Gen(t *rapid.T) *c21Case {
@@ -363,6 +414,14 @@ func c21Gen(t *rapid.T) *c21Case {
 		c.headRound = 1
 	}
 	c.setID = rapid.SampledFrom([]uint64{0, 0, 3}).Draw(t, "setID")
+	c21GenRound(t, tree, c)
+	return c
+}
+
+// c21GenRound draws the round-specific part (best block, own votes, pending
+// change, messages) for the round that follows c.headRound with finalised
+// head c.head.
+func c21GenRound(t *rapid.T, tree *vTree, c *c21Case) {
 	r := c.headRound + 1
 	sub := tree.subtree(c.head)
 	// best block: a deepest descendant of the head
@@ -551,7 +610,6 @@ func c21Gen(t *rapid.T) *c21Case {
 		}
 		c.msgs = append(c.msgs, m)
 	}
-	return c
 }
 
 func TestC21Round(t *testing.T) {
@@ -637,5 +695,359 @@ func TestC21Regressions(t *testing.T) {
 			t.Errorf("%s: %s\ncase: %s", name, res.violation, c21Describe(c, tree))
 		}
 		t.Logf("%s: labels %v", name, res.labels)
+	}
+}
+
+// ---------------------------------------------------------------------------
+// several consecutive rounds on the same Service
+
+const c21MultiRule = "2-3 consecutive synchronous rounds on ONE Service (initiateRound between rounds exactly as finalisationHandler.run; a round the service did not finalise itself is closed " +
+	"by a harness 'commit' = SetFinalisedHash on the block state, as a received commit message would do): 3-7 authorities, tree of 4-12 blocks; every round has its own generated votes signed for that round; " +
+	"earlier rounds get extra prevote- and precommit-stage equivocators, later rounds are mostly 'tight': exactly floor(2n/3) or floor(2n/3)+1 genuine prevotes and precommits on one block, " +
+	"preferably cast by authorities that equivocated in the round before, plus verbatim replays of the previous round's messages; per round the TestC21Round oracle over the votes of that round only, " +
+	"and the first valid vote of an authority in a stage of a round must be accepted and recorded. " +
+	"Non-trivial = an authority equivocated in an earlier round and a later round had a block with >2/3 prevotes; distinct by the per-round descriptions"
+
+// c21Deepest returns the deepest blocks of the subtree of head.
+func c21Deepest(tree *vTree, head int) []int {
+	var deepest []int
+	for _, b := range tree.subtree(head) {
+		if len(deepest) == 0 || tree.number[b] > tree.number[deepest[0]] {
+			deepest = []int{b}
+		} else if tree.number[b] == tree.number[deepest[0]] {
+			deepest = append(deepest, b)
+		}
+	}
+	return deepest
+}
+
+// c21GenTight draws a round in which the genuine votes sit at the
+// supermajority boundary: k in {need-1, need} (rarely need+1) authorities
+// prevote, and k' precommit, for one block B (or a descendant), need =
+// floor(2n/3)+1. Authorities that equivocated in the previous round (prevPV,
+// prevPC) are preferred as voters. Some messages of the previous round are
+// replayed verbatim (they carry the old round and must be rejected).
+func c21GenTight(t *rapid.T, tree *vTree, c *c21Case, prevPV, prevPC []int, prev []c21Msg) (kpv, kpc int) {
+	sub := tree.subtree(c.head)
+	deepest := c21Deepest(tree, c.head)
+	c.best = deepest[rapid.IntRange(0, len(deepest)-1).Draw(t, "best")]
+	c.ownPrevote = -1
+	b := c.head
+	if len(sub) > 1 {
+		b = sub[rapid.IntRange(1, len(sub)-1).Draw(t, "tightBlock")]
+	}
+	subB := tree.subtree(b)
+	need := 2*c.n/3 + 1
+	var msgs []c21Msg
+	for _, stage := range []Subround{prevote, precommit} {
+		k := need - 1 + rapid.IntRange(0, 1).Draw(t, "atNeed")
+		if rapid.IntRange(0, 7).Draw(t, "aboveNeed") == 0 {
+			k = need + 1
+		}
+		if k > c.n {
+			k = c.n
+		}
+		if stage == prevote {
+			kpv = k
+		} else {
+			kpc = k
+		}
+		others := k
+		if rapid.IntRange(0, 2).Draw(t, "self") > 0 {
+			others--
+			if stage == prevote {
+				c.ownPrevote = b
+			} else {
+				c.ownPrecommit = true
+			}
+		}
+		// voter order: equivocators of the previous round first (3/4), then the rest in a drawn order
+		var first, rest []int
+		pref := prevPV
+		if stage == precommit {
+			pref = prevPC
+		}
+		if rapid.IntRange(0, 3).Draw(t, "preferOldEquivocators") == 0 {
+			pref = nil
+		}
+		isPref := map[int]bool{}
+		for _, k := range pref {
+			if k >= 1 && k < c.n {
+				isPref[k] = true
+				first = append(first, k)
+			}
+		}
+		for k := 1; k < c.n; k++ {
+			if !isPref[k] {
+				rest = append(rest, k)
+			}
+		}
+		if len(rest) > 1 {
+			rest = rapid.Permutation(rest).Draw(t, "voters")
+		}
+		voters := append(first, rest...)
+		if others > len(voters) {
+			others = len(voters)
+		}
+		for _, key := range voters[:others] {
+			blk := b
+			if rapid.IntRange(0, 3).Draw(t, "onDescendant") == 0 {
+				blk = subB[rapid.IntRange(0, len(subB)-1).Draw(t, "blk")]
+			}
+			msgs = append(msgs, c21Valid(c, tree, "valid", key, stage, tree.vote(blk)))
+		}
+		// sometimes one more authority votes validly elsewhere (ancestor of B or another fork)
+		if others < len(voters) && rapid.IntRange(0, 2).Draw(t, "elsewhere") == 0 {
+			var off []int
+			for _, x := range sub {
+				if !tree.isAncestorOrEqual(b, x) {
+					off = append(off, x)
+				}
+			}
+			if len(off) > 0 {
+				msgs = append(msgs, c21Valid(c, tree, "valid-elsewhere", voters[others], stage, tree.vote(off[rapid.IntRange(0, len(off)-1).Draw(t, "blk")])))
+			}
+		}
+	}
+	// verbatim replays of the previous round (old round number in message and signature)
+	if len(prev) > 0 {
+		nrep := rapid.IntRange(0, 2).Draw(t, "replays")
+		for i := 0; i < nrep; i++ {
+			m := prev[rapid.IntRange(0, len(prev)-1).Draw(t, "replayOf")]
+			m.kind = "replayPrev"
+			msgs = append(msgs, m)
+		}
+	}
+	if len(msgs) > 1 {
+		msgs = rapid.Permutation(msgs).Draw(t, "order")
+	}
+	c.msgs = msgs
+	return kpv, kpc
+}
+
+// c21AddEquivocations appends count equivocations (two valid votes of one
+// authority for different blocks in one stage) at drawn positions.
+func c21AddEquivocations(t *rapid.T, tree *vTree, c *c21Case, count int) {
+	sub := tree.subtree(c.head)
+	if len(sub) < 2 || c.n < 2 {
+		return
+	}
+	for i := 0; i < count; i++ {
+		stage := prevote
+		if rapid.IntRange(0, 2).Draw(t, "eqStage") > 0 {
+			stage = precommit
+		}
+		key := rapid.IntRange(1, c.n-1).Draw(t, "eqSigner")
+		b1 := sub[rapid.IntRange(0, len(sub)-1).Draw(t, "eqBlk1")]
+		b2 := sub[rapid.IntRange(0, len(sub)-1).Draw(t, "eqBlk2")]
+		if b1 == b2 {
+			b2 = sub[(rapid.IntRange(0, len(sub)-2).Draw(t, "eqShift")+1+indexOf(sub, b1))%len(sub)]
+		}
+		for _, b := range []int{b1, b2} {
+			m := c21Valid(c, tree, "valid-equivocating", key, stage, tree.vote(b))
+			pos := rapid.IntRange(0, len(c.msgs)).Draw(t, "eqPos")
+			c.msgs = append(c.msgs[:pos], append([]c21Msg{m}, c.msgs[pos:]...)...)
+		}
+	}
+}
+
+func indexOf(list []int, x int) int {
+	for i, v := range list {
+		if v == x {
+			return i
+		}
+	}
+	return 0
+}
+
+// c21CloseRound makes sure the block state has a finalised block for round r
+// before the next initiateRound, as checkRoundCompletable requires in
+// finalisation.go: if the service did not finalise itself, a commit received
+// from the network is modelled by SetFinalisedHash(blk, r, setID).
+func c21CloseRound(env *vEnv, tree *vTree, r, setID uint64, blk int) error {
+	has, _ := env.bs.HasFinalisedBlock(r, setID)
+	if has {
+		return nil
+	}
+	return env.bs.SetFinalisedHash(tree.hashes[blk], r, setID)
+}
+
+func TestC21MultiRound(t *testing.T) {
+	defer kit.Flush()
+	kit.Note("rule-multiround", c21MultiRule)
+	rapid.Check(t, func(t *rapid.T) {
+		n := rapid.SampledFrom([]int{3, 3, 4, 5, 6, 6, 7}).Draw(t, "n")
+		tree := vGenTree(t, 4, 12)
+		c0 := &c21Case{n: n, parent: tree.parent, pendingAt: -1, best: tree.size() - 1}
+		if rapid.IntRange(0, 3).Draw(t, "headNotGenesis") == 0 {
+			c0.head = rapid.IntRange(0, tree.size()/2).Draw(t, "head")
+		}
+		if c0.head != 0 {
+			c0.headRound = 1
+		}
+		c0.setID = rapid.SampledFrom([]uint64{0, 0, 3}).Draw(t, "setID")
+		rounds := rapid.IntRange(2, 3).Draw(t, "rounds")
+		env, _, err := c21Setup(c0)
+		if err != nil {
+			t.Fatalf("harness: %v", err)
+		}
+		var descr strings.Builder
+		labels := []string{fmt.Sprintf("n=%d", n), fmt.Sprintf("rounds=%d", rounds)}
+		var prevPV, prevPC []int
+		var prevMsgs []c21Msg
+		everEquiv := map[int]bool{}
+		earlierEquivocator, laterSupermajority, oldEquivocatorVotesLater := false, false, false
+		for k := 0; k < rounds; k++ {
+			rc := &c21Case{n: n, parent: tree.parent, setID: c0.setID, pendingAt: -1, ownPrevote: -1}
+			env.bs.mu.Lock()
+			rc.head, rc.headRound = env.bs.finalHead, env.bs.highRound
+			env.bs.mu.Unlock()
+			r := rc.headRound + 1
+			tight := false
+			if k == 0 {
+				tight = rapid.IntRange(0, 4).Draw(t, "tightFirst") == 0
+			} else {
+				tight = rapid.IntRange(0, 3).Draw(t, "tight") > 0
+			}
+			if tight {
+				kpv, kpc := c21GenTight(t, tree, rc, prevPV, prevPC, prevMsgs)
+				need := 2*n/3 + 1
+				labels = append(labels, fmt.Sprintf("tight-r%d-pv=need%+d", k+1, kpv-need), fmt.Sprintf("tight-r%d-pc=need%+d", k+1, kpc-need))
+			} else {
+				c21GenRound(t, tree, rc)
+			}
+			neq := 0
+			if k < rounds-1 {
+				neq = rapid.IntRange(0, 2).Draw(t, "equivocations")
+			} else if rapid.IntRange(0, 3).Draw(t, "lateEquivocation") == 0 {
+				neq = 1
+			}
+			c21AddEquivocations(t, tree, rc, neq)
+			fmt.Fprintf(&descr, "[round %d] %s ", r, c21Describe(rc, tree))
+			res, err := c21RunRound(env, tree, rc)
+			if err != nil {
+				t.Fatalf("harness: %v\ncase: %s", err, descr.String())
+			}
+			if res.violation != "" {
+				t.Fatalf("round %d (%d. of the case): %s\ncase: %s", r, k+1, res.violation, descr.String())
+			}
+			if k > 0 && len(everEquiv) > 0 {
+				earlierEquivocator = true
+				if res.smNonEmpty {
+					laterSupermajority = true
+				}
+				for _, m := range rc.msgs {
+					if strings.HasPrefix(m.kind, "valid") && everEquiv[m.key] {
+						oldEquivocatorVotesLater = true
+					}
+				}
+			}
+			for _, l := range res.labels {
+				if l == "finalised" || l == "prevote-supermajority" || l == "finalisable-but-not-finalised" {
+					labels = append(labels, fmt.Sprintf("r%d-%s", k+1, l))
+				}
+			}
+			for _, key := range append(append([]int{}, res.pvEquiv...), res.pcEquiv...) {
+				everEquiv[key] = true
+			}
+			if len(res.pvEquiv) > 0 {
+				labels = append(labels, fmt.Sprintf("r%d-prevote-equivocator", k+1))
+			}
+			if len(res.pcEquiv) > 0 {
+				labels = append(labels, fmt.Sprintf("r%d-precommit-equivocator", k+1))
+			}
+			prevPV, prevPC, prevMsgs = res.pvEquiv, res.pcEquiv, rc.msgs
+			// close the round for the block state before the next initiateRound
+			if res.finalised < 0 {
+				sub := tree.subtree(rc.head)
+				blk := rc.head
+				if rapid.Bool().Draw(t, "commitAdvances") {
+					blk = sub[rapid.IntRange(0, len(sub)-1).Draw(t, "commitBlock")]
+				}
+				fmt.Fprintf(&descr, "(commit b%d) ", blk)
+				if err := c21CloseRound(env, tree, r, rc.setID, blk); err != nil {
+					t.Fatalf("harness: closing round: %v", err)
+				}
+				labels = append(labels, "round-closed-by-commit")
+			}
+		}
+		if oldEquivocatorVotesLater {
+			labels = append(labels, "earlier-equivocator-votes-in-later-round")
+		}
+		kit.Case(descr.String(), earlierEquivocator && laterSupermajority, labels...)
+	})
+}
+
+// TestC21MultiRoundRegressions: deterministic two-round scenarios for state
+// that must not leak from one round into the next.
+func TestC21MultiRoundRegressions(t *testing.T) {
+	defer kit.Flush()
+	// chain genesis <- b1 <- b2, fork b3 (child of b1); 3 authorities
+	parent := []int{-1, 0, 1, 1}
+	tree := newVTree(parent)
+	type scenario struct {
+		r1, r2 func(c *c21Case)
+	}
+	scenarios := map[string]scenario{
+		// authority 1 equivocates in the precommit stage of round 1; in round 2 only 2 of 3 precommit b2
+		"stale-precommit-equivocator": {
+			r1: func(c *c21Case) {
+				c.msgs = append(c.msgs, c21Valid(c, tree, "valid-equivocating", 1, precommit, tree.vote(2)),
+					c21Valid(c, tree, "valid-equivocating", 1, precommit, tree.vote(3)))
+			},
+			r2: func(c *c21Case) {
+				c.ownPrevote, c.ownPrecommit = 2, true
+				c.msgs = append(c.msgs, c21Valid(c, tree, "valid", 1, prevote, tree.vote(2)), c21Valid(c, tree, "valid", 2, prevote, tree.vote(2)),
+					c21Valid(c, tree, "valid", 2, precommit, tree.vote(2)))
+			},
+		},
+		// ... and the former equivocator's genuine votes of round 2 must be accepted
+		"former-equivocator-votes-again": {
+			r1: func(c *c21Case) {
+				c.msgs = append(c.msgs, c21Valid(c, tree, "valid-equivocating", 1, precommit, tree.vote(2)),
+					c21Valid(c, tree, "valid-equivocating", 1, precommit, tree.vote(3)),
+					c21Valid(c, tree, "valid-equivocating", 2, prevote, tree.vote(2)),
+					c21Valid(c, tree, "valid-equivocating", 2, prevote, tree.vote(1)))
+			},
+			r2: func(c *c21Case) {
+				c.ownPrevote, c.ownPrecommit = 2, true
+				c.msgs = append(c.msgs, c21Valid(c, tree, "valid", 2, prevote, tree.vote(2)), c21Valid(c, tree, "valid", 1, prevote, tree.vote(2)),
+					c21Valid(c, tree, "valid", 1, precommit, tree.vote(2)), c21Valid(c, tree, "valid", 2, precommit, tree.vote(2)))
+			},
+		},
+		// votes of round 1 (prevotes and precommits on b3) must not count in round 2
+		"stale-votes": {
+			r1: func(c *c21Case) {
+				c.msgs = append(c.msgs, c21Valid(c, tree, "valid", 1, prevote, tree.vote(3)), c21Valid(c, tree, "valid", 2, prevote, tree.vote(3)),
+					c21Valid(c, tree, "valid", 1, precommit, tree.vote(3)))
+			},
+			r2: func(c *c21Case) {
+				c.ownPrevote, c.ownPrecommit = 2, true
+				c.msgs = append(c.msgs, c21Valid(c, tree, "valid", 1, prevote, tree.vote(2)), c21Valid(c, tree, "valid", 1, precommit, tree.vote(2)))
+			},
+		},
+	}
+	for name, sc := range scenarios {
+		c0 := &c21Case{n: 3, parent: parent, best: 2, pendingAt: -1, ownPrevote: -1}
+		env, _, err := c21Setup(c0)
+		if err != nil {
+			t.Fatalf("%s: harness: %v", name, err)
+		}
+		for k, fill := range []func(c *c21Case){sc.r1, sc.r2} {
+			rc := &c21Case{n: 3, parent: parent, best: 2, pendingAt: -1, ownPrevote: -1, head: env.bs.finalHead, headRound: env.bs.highRound}
+			fill(rc)
+			res, err := c21RunRound(env, tree, rc)
+			if err != nil {
+				t.Fatalf("%s: harness: %v", name, err)
+			}
+			if res.violation != "" {
+				t.Errorf("%s: round %d: %s\ncase: %s", name, k+1, res.violation, c21Describe(rc, tree))
+				break
+			}
+			t.Logf("%s: round %d labels %v finalised b%d", name, k+1, res.labels, res.finalised)
+			if err := c21CloseRound(env, tree, rc.headRound+1, 0, rc.head); err != nil {
+				t.Fatalf("%s: harness: %v", name, err)
+			}
+		}
 	}
 }
